@@ -109,9 +109,20 @@ func funcKey(pkg, name string) string {
 }
 
 type ContractSet struct {
-	M     map[string]*Contract
-	Files []string
+	M      map[string]*Contract
+	Files  []string
+	Macros map[string]*Macro
+	Groups map[string][]string
 }
+
+type Macro struct {
+	Name   string
+	Params []string
+	Text   string
+	E      Expr
+}
+
+var reDefine = regexp.MustCompile(`^define\s+([A-Za-z_][A-Za-z0-9_]*)\s*\(([^)]*)\)\s*=\s*(.*)$`)
 
 func loadContracts(files []string, repoRoot string) (*ContractSet, error) {
 	cs := &ContractSet{M: map[string]*Contract{}}
@@ -200,6 +211,50 @@ func (cs *ContractSet) loadFile(path string, ext bool) error {
 			pkg = strings.TrimSpace(body[len("package "):])
 			continue
 		}
+		if strings.HasPrefix(body, "modifies-group ") {
+			// modifies-group NAME = key1, key2, @OTHER   (used as: modifies @NAME)
+			rest := strings.TrimSpace(body[len("modifies-group "):])
+			i := strings.Index(rest, "=")
+			if i < 0 {
+				return fmt.Errorf("%s:%d: bad modifies-group", path, lineNo)
+			}
+			name := strings.TrimSpace(rest[:i])
+			if cs.Groups == nil {
+				cs.Groups = map[string][]string{}
+			}
+			for _, k := range strings.Split(rest[i+1:], ",") {
+				k = strings.TrimSpace(k)
+				if k == "" {
+					continue
+				}
+				if strings.HasPrefix(k, "@") {
+					cs.Groups[name] = append(cs.Groups[name], cs.Groups[k[1:]]...)
+				} else {
+					cs.Groups[name] = append(cs.Groups[name], k)
+				}
+			}
+			lastText = nil
+			continue
+		}
+		if strings.HasPrefix(body, "define ") {
+			// define NAME(a, b) = expr   (package-level abbreviation, expanded by evaluation)
+			m := reDefine.FindStringSubmatch(body)
+			if m == nil {
+				return fmt.Errorf("%s:%d: bad define", path, lineNo)
+			}
+			mac := &Macro{Name: m[1], Text: strings.TrimSpace(m[3])}
+			for _, p := range strings.Split(m[2], ",") {
+				if p = strings.TrimSpace(p); p != "" {
+					mac.Params = append(mac.Params, p)
+				}
+			}
+			if cs.Macros == nil {
+				cs.Macros = map[string]*Macro{}
+			}
+			cs.Macros[mac.Name] = mac
+			lastText = &mac.Text
+			continue
+		}
 		if m := reHead.FindStringSubmatch(body); m != nil {
 			if pkg == "" {
 				return fmt.Errorf("%s:%d: func before package", path, lineNo)
@@ -220,6 +275,10 @@ func (cs *ContractSet) loadFile(path string, ext bool) error {
 			continue
 		}
 		if cur == nil {
+			if lastText != nil {
+				*lastText += " " + body
+				continue
+			}
 			return fmt.Errorf("%s:%d: clause outside func: %s", path, lineNo, body)
 		}
 		if m := reAssert.FindStringSubmatch(body); m != nil {
@@ -267,7 +326,19 @@ func (cs *ContractSet) loadFile(path string, ext bool) error {
 			cur.Wrapping = true
 			lastText = nil
 		case strings.HasPrefix(body, "modifies "):
-			md, err := parseModifies(strings.TrimSpace(body[len("modifies "):]), 0)
+			spec := strings.TrimSpace(body[len("modifies "):])
+			if strings.HasPrefix(spec, "@") {
+				g, ok := cs.Groups[spec[1:]]
+				if !ok {
+					return fmt.Errorf("%s:%d: unknown modifies-group %s", path, lineNo, spec)
+				}
+				for _, k := range g {
+					cur.Mods = append(cur.Mods, Modifies{Key: k})
+				}
+				lastText = nil
+				break
+			}
+			md, err := parseModifies(spec, 0)
 			if err != nil {
 				return fmt.Errorf("%s:%d: %v", path, lineNo, err)
 			}
@@ -315,6 +386,13 @@ func parseModifies(s string, loop int) (Modifies, error) {
 
 // finish parses all clause expressions.
 func (cs *ContractSet) finish() error {
+	for _, m := range cs.Macros {
+		e, err := parseExpr(m.Text)
+		if err != nil {
+			return fmt.Errorf("define %s: %v", m.Name, err)
+		}
+		m.E = e
+	}
 	for _, c := range cs.M {
 		all := [][]*Clause{c.Requires, c.Ensures, c.Canaries, c.Invs, c.Asserts}
 		for _, l := range all {
